@@ -297,6 +297,24 @@ fn c07(tier: &str) -> i32 {
         sq.extend(families::c02_quick());
         jobs.extend(jobs_from(sq).into_iter().map(|j| j.backend(lab::Bk::Sqlite)));
     }
+    // "at any later point" past every window the client keeps: a message and a commit handled at the first epoch are offered again
+    // after each of eight further commits (exporter secrets are kept for the current and five past epochs, snapshots for five
+    // commits), when the wrapper can no longer be opened or the snapshot to compare with is gone
+    {
+        use scenario::{ActKind, act};
+        let mut tail = act("A", ActKind::Rename("n8".into()), 90);
+        for k in (1..8u64).rev() {
+            tail = act(if k % 2 == 0 { "B" } else { "A" }, ActKind::Rename(format!("n{k}")), 10 + 10 * k).then(vec![tail]);
+        }
+        let sc = families::base("redelivery-past-every-window", &["A", "B", "C", "Z"], &["A", "B"], &[], vec![act("C", ActKind::Msg("old".into()), 5), act("Z", ActKind::Msg("own-old".into()), 6), tail]);
+        for bk in if tier == "quick" { vec![lab::Bk::Memory] } else { vec![lab::Bk::Memory, lab::Bk::Sqlite] } {
+            let mut j = E1Job::new(sc.clone()).backend(bk);
+            j.regimes = vec![explore::Regime::Causal];
+            j.with_local_ops = false;
+            j.members = Some(vec!["Z".into()]);
+            jobs.push(j);
+        }
+    }
     // restarts between the deliveries (SQLite): an event handled before the restart is still "already handled" after it
     for (sc, _) in families::c01_quick().into_iter().take(if tier == "quick" { 1 } else { 4 }) {
         let mut j = E1Job::new(sc).backend(lab::Bk::Sqlite);
